@@ -766,7 +766,9 @@ def gen_c05(tier, seed):
     add("v_u8_none_cropped", "quick", "U8", "None", 2, 4, 2, 2, None, ("Convolution", "Bilinear"), ("cropped", 3, 3, 1, 1), mem=16)
     add("v_u8_sse4_exact", "thorough", "U8", "Sse4_1", 3, 4, 3, 2, None, ("Convolution", "Bilinear"), ("exact",), mem=16, t=3000)
     # horizontal-only SIMD into a cropped view that is not flush with the parent's bottom, 5 rows
-    add("h_u8_sse4_cropped_5rows", "quick", "U8", "Sse4_1", 3, 6, 2, 5, (0, 1, 3, 5), ("Convolution", "Bilinear"), ("cropped", 4, 7, 1, 1), mem=14)
+    # (the source has rows below the crop box and the parent has rows below the view: a leftover-row loop that
+    #  runs too far has both something to read and somewhere to write)
+    add("h_u8_sse4_cropped_5rows", "quick", "U8", "Sse4_1", 3, 8, 2, 5, (0, 1, 3, 5), ("Convolution", "Bilinear"), ("cropped", 4, 8, 1, 1), mem=14)
     # 16-bit two-pass, exact buffer
     add("conv2_u16_none_exact", "quick", "U16", "None", 3, 3, 2, 2, None, ("Convolution", "Bilinear"), ("exact",))
     write = finish_p("C05", insts)
@@ -1172,8 +1174,9 @@ def gen_c09(tier, seed):
     # two-pass without alpha: intermediate-pass scratch, exact and over-sized
     add("conv2_u8_exact", "quick", "U8", "None", 3, 3, 2, 2, None, alpha=False)
     add("conv2_u8_larger", "quick", "U8", "None", 3, 3, 2, 2, None, alpha=False, scratch_extra=3)
-    # scratch whose length is one byte short of what is needed while its capacity is large enough
-    add("conv2_u8_len_lt_capacity", "quick", "U8", "None", 3, 3, 2, 2, None, alpha=False, short_conv=1)
+    # scratch whose LENGTH is shorter than the temporary image (not just shorter than image + alignment
+    # gap) while its capacity is large enough
+    add("conv2_u8_len_lt_capacity", "quick", "U8", "None", 3, 3, 2, 2, None, alpha=False, short_conv=3)
     if tier == "thorough":
         add("conv2_u16_larger", "thorough", "U16", "None", 3, 3, 2, 2, None, alpha=False, scratch_extra=3, mem=20, t=3600)
         add("alpha_u16x2_crop_h", "thorough", "U16x2", "None", 10, 1, 1, 1, (3, 0, 4, 1))
